@@ -130,15 +130,22 @@ async fn run_tcp(script: Script) -> Obs {
     let t0 = Instant::now();
     let limit = if last == "idle" { Duration::from_millis(150) } else { Duration::from_secs(3) };
     let mut gone = false;
+    let mut half_gone_since: Option<Instant> = None;
     while t0.elapsed() < limit {
         let (a, b) = sess.in_router_list();
         if !a && !b { gone = true; break; }
+        // removed from one map only: the task is past `run`; give it a moment, then report that
+        if a != b {
+            let since = *half_gone_since.get_or_insert_with(Instant::now);
+            if since.elapsed() > Duration::from_millis(100) { break; }
+        }
         tokio::time::sleep(Duration::from_millis(5)).await;
     }
+    let half_gone = half_gone_since.is_some() && !gone;
     tokio::time::sleep(Duration::from_millis(10)).await;
     let (outs, toks) = show_updates(&sess.updates());
     let panicked = last_thread_panic();
-    let end = if gone { "done" } else if !panicked.is_empty() { "panic" } else if last == "idle" { "waiting" } else { "hang" };
+    let end = if gone || half_gone { "done" } else if !panicked.is_empty() { "panic" } else if last == "idle" { "waiting" } else { "hang" };
     let msgs = metric_sum(&sess.metrics_text(), "num_bmp_messages_received");
     let children = sess.children();
     let router = sess.router_ingress_id;
@@ -150,6 +157,50 @@ async fn run_tcp(script: Script) -> Obs {
 
 /// tcp cases run one at a time: a panic recorded since the case started belongs to it.
 fn last_thread_panic() -> String { verif_harness::bmpio::take_any_panic() }
+
+// -------------------------------------------------------------------- bgp
+
+/// The real `Processor::process` (bgp_tcp_in) with a scripted session: events `neg` (session
+/// negotiated), `dup` (a second SessionNegotiated for the same peer), `upd`, `lost`, `closed`
+/// (session channel closed), `term` (unit's gate terminated).
+async fn run_bgp(evs: Vec<String>) -> (String, bool, bool, u32) {
+    use rotonda::verif::bgp_io as bgp;
+    use std::str::FromStr;
+    let mut h = bgp::start();
+    let collector = Arc::new(hooks::Collector::default());
+    h.link.set_direct_update_target(collector.clone());
+    let _ = h.link.connect(false).await;
+    let addr: std::net::SocketAddr = "1.2.3.4:12345".parse().unwrap();
+    for e in &evs {
+        let tx = h.sess_tx.clone();
+        match e.as_str() {
+            "neg" | "dup" => {
+                h.negotiated.store(true, SeqCst);
+                if let Some(tx) = &tx { let _ = tx.send(bgp::SessionMessage::SessionNegotiated(bgp::Negotiated::dummy())).await; }
+            }
+            "upd" => {
+                let ann = rotonda::bgp::encode::Announcements::from_str("e [65001,100] 10.0.0.1 BLACKHOLE,123:44 127.0.7.0/24").unwrap();
+                let bytes = rotonda::bgp::encode::mk_bgp_update(&rotonda::bgp::encode::Prefixes::default(), &ann, &[]);
+                let msg = routecore::bgp::message::UpdateMessage::from_octets(bytes, &routecore::bgp::message::SessionConfig::modern()).unwrap();
+                if let Some(tx) = &tx { let _ = tx.send(bgp::SessionMessage::UpdateMessage(msg)).await; }
+            }
+            "lost" => { if let Some(tx) = &tx { let _ = tx.send(bgp::SessionMessage::ConnectionLost(Some(addr))).await; } }
+            "closed" => { h.sess_tx = None; }
+            "term" => { h.agent.terminate().await; }
+            _ => {}
+        }
+        drop(tx);
+        tokio::time::sleep(Duration::from_millis(8)).await; // the gate and the session channel are separate queues
+    }
+    let t = Instant::now();
+    while !h.task.is_finished() && t.elapsed() < Duration::from_millis(200) { tokio::time::sleep(Duration::from_millis(5)).await; }
+    let ended = h.task.is_finished();
+    let key = (addr.ip(), inetnum::asn::Asn::from_u32(12345));
+    let live = h.live_sessions.lock().unwrap().contains_key(&key);
+    let (outs, _) = show_updates(&collector.updates.lock().unwrap());
+    if !ended { h.task.abort(); }
+    (outs, ended, live, h.ingress_id)
+}
 
 // ------------------------------------------------------------------ tokens
 
@@ -237,6 +288,17 @@ fn gen_stream(g: &mut Rng, with_term: bool) -> Vec<Vec<u8>> {
     v
 }
 
+fn record_bgp(rec: &mut Recorder, evs: &[String], outs: String, ended: bool, live: bool, id: u32) {
+    let line = format!("bgp|{}|{}", id, evs.join(" "));
+    let imp = format!("{} ended={} live={}", outs, ended, live);
+    let negotiated = evs.iter().any(|e| e == "neg");
+    let orc = if ended && negotiated && !outs.split(' ').any(|t| t.starts_with('E')) {
+        "fail bgp:no-end-of-stream the BGP session ended without an end-of-stream notice".to_string()
+    } else { "ok".to_string() };
+    rec.bump("bgp.cases");
+    rec.case(line, imp, orc, negotiated);
+}
+
 fn main() {
     let args = parse_args();
     let t0 = Instant::now();
@@ -261,7 +323,11 @@ fn main() {
         for line in verif_harness::replay_cases(path) {
             let parts: Vec<&str> = line.split('|').collect();
             let script = parse_script(parts[1]);
-            if parts[0] == "tcp" { let o = rt.block_on(run_tcp(script.clone())); record(&mut rec, "tcp", &script, o); }
+            if parts[0] == "bgp" {
+                let evs: Vec<String> = parts[2].split_whitespace().map(|x| x.to_string()).collect();
+                let (outs, ended, live, id) = rt.block_on(run_bgp(evs.clone()));
+                record_bgp(&mut rec, &evs, outs, ended, live, id);
+            } else if parts[0] == "tcp" { let o = rt.block_on(run_tcp(script.clone())); record(&mut rec, "tcp", &script, o); }
             else if parts[0] == "cut" { let o = rt.block_on(run_cut(script.clone(), args.seed)); record(&mut rec, "cut", &script, o); }
         }
         rec.finish(&args, t0.elapsed().as_secs_f64());
@@ -312,6 +378,25 @@ fn main() {
     tcp_cases.push(vec![Item::Data(all.clone()), Item::Data(vec![3, 0, 0, 0, 4])]);          // malformed framing
     tcp_cases.push(vec![Item::Data(all.clone()), Item::Data(vec![3, 0, 0, 0, 9, 9, 9, 9, 9])]); // unparsable message, close
     for s in tcp_cases { let o = rt.block_on(run_tcp(s.clone())); record(&mut rec, "tcp", &s, o); }
+
+    // 1b. the BGP processor with a scripted session (the routecore FSM replaced by its messages)
+    let mut bgp_cases: Vec<Vec<&str>> = vec![
+        vec!["neg", "upd", "lost"], vec!["neg", "lost"], vec!["neg", "upd", "upd", "closed"], vec!["lost"], vec!["closed"],
+        vec!["neg", "term"], vec!["neg", "upd", "term", "lost"], vec!["neg", "dup"], vec!["upd"], vec!["neg", "term", "upd", "closed"],
+    ];
+    for _ in 0..(if args.thorough { 60 } else { 10 }) {
+        let mut v = vec![];
+        if g.chance(4, 5) { v.push("neg"); }
+        for _ in 0..g.below(4) { v.push(*g.pick(&["upd", "upd", "term"])); }
+        v.push(*g.pick(&["lost", "closed", "lost", "dup"]));
+        if v.contains(&"dup") && !v.contains(&"neg") { v.insert(0, "neg"); }
+        bgp_cases.push(v);
+    }
+    for evs in bgp_cases {
+        let evs: Vec<String> = evs.iter().map(|x| x.to_string()).collect();
+        let (outs, ended, live, id) = rt.block_on(run_bgp(evs.clone()));
+        record_bgp(&mut rec, &evs, outs, ended, live, id);
+    }
 
     // 2. cut: every offset x every way
     let kinds: Vec<ErrorKind> = if args.thorough { NAMED_KINDS.iter().chain(UNLISTED_KINDS.iter()).map(|e| e.1).collect() }
